@@ -51,3 +51,14 @@ Example C10_example :
   | _ => False
   end.
 Proof. vm_compute. repeat split; reflexivity. Qed.
+
+(* ---- BadType nodes of the total model of ParseType (Parse/TypeRecover.v, tied to ParseType on whole trees in every run): the node holds,
+   in order and once each, exactly a prefix of the tokens from the first token of the failed activation; NodePos is the start of that
+   token, NodeEnd the end of the last collected one (NodePos when none); parsing continues right after them -- at the same token, or at the
+   second half of a ">>" whose first half closed a bracket opened inside the skipped text; exactly one error is appended ---- *)
+From Verif Require Import Parse.ExprModel Parse.TypeModel Parse.TypeRecover Parse.TypeRecoverProofs.
+Theorem C10_bad_type_holds_the_skipped_tokens : forall ts p e t rest e', recover ts p e = ROk (t, rest) e' ->
+  exists sk, t = RBad (ppos (cur ts)) (end_of (ppos (cur ts)) sk) sk /\ e' = (e ++ [p])%list /\
+    (ts = (sk ++ rest)%list \/ exists x r, ts = (sk ++ x :: r)%list /\ rest = half_keep x :: r /\ kis x ">>" = true).
+Proof. exact recover_spec. Qed.
+Print Assumptions C10_bad_type_holds_the_skipped_tokens.
